@@ -82,7 +82,9 @@ func (t *VariantType) Equals(o interface{}, g px.Guard) bool {
 }
 
 func (t *VariantType) Generic() px.Type {
-	return &VariantType{UniqueTypes(alterTypes(t.types, generalize))}
+	// members that generalize to the same type leave one member: that is the member itself, not a Variant of one (which
+	// prints as Variant[T] and is read back as T)
+	return NewVariantType(UniqueTypes(alterTypes(t.types, generalize))...)
 }
 
 func (t *VariantType) Default() px.Type {
